@@ -307,7 +307,7 @@ def run_get(s):
                     covers["interpolated"] = covers.get("interpolated", 0) + 1
                     oblige(f"warning-when-interpolated:{tag}", warned)
                 oblige(f"frame:registry-unchanged:{tag}", True)
-            with util.patched(*util.std_patches(mods), (mods["metrics"], "frozenset", DemonicFrozenSet)):
+            with util.patched(*util.std_patches(mods), (mods["metrics"], "frozenset", DemonicFrozenSet), (mods["grid"], "frozenset", DemonicFrozenSet)):
                 rep = symx.explore(body, s["sid"] + tag)
             stats["paths"] += rep.paths
             stats["queries"] += rep.queries
